@@ -4,7 +4,7 @@ use solang_parser::pt::{self, Loc};
 use solang_parser::{self, pt::SourceUnit};
 
 use crate::analyzer::ast::{self, Target};
-use crate::analyzer::utils::get_32_byte_storage_variables;
+use crate::analyzer::utils::{self, get_32_byte_storage_variables};
 
 pub fn immutable_variables_optimization(source_unit: SourceUnit) -> HashSet<Loc> {
     //Create a new hashset that stores the location of each optimization target identified
@@ -61,10 +61,8 @@ pub fn immutable_variables_optimization(source_unit: SourceUnit) -> HashSet<Loc>
                         let expression = node.expression().unwrap();
                         match expression {
                             pt::Expression::Assign(_, box_expression, _) => {
-                                if let pt::Expression::Variable(identifier) = *box_expression {
-                                    //if the variable name exists in the storage variable hashmap
-                                    if potential_immutable_variables.contains_key(&identifier.name)
-                                    {
+                                for target in utils::get_assignment_targets(*box_expression) {
+                                    if let pt::Expression::Variable(identifier) = target {
                                         //if the variable has been used, remove it from storage variables
                                         potential_immutable_variables.remove(&identifier.name);
                                     }
